@@ -116,9 +116,10 @@ Terminal == /\ pc \in {"value", "done"}
             /\ pc' = "end"
             /\ UNCHANGED <<sc, i, blockEnd, visited, cnt, stopReq, lateNext>>
 
-Next == EarlyStop \/ Start \/ Poll \/ NextCall \/ LoopEnd \/ Terminal
+Finished == pc = "end" /\ UNCHANGED vars     \* so that TLC's deadlock check means: stuck before the terminal signal
+Next == EarlyStop \/ Start \/ Poll \/ NextCall \/ LoopEnd \/ Terminal \/ Finished
 Spec == Init /\ [][Next]_vars
-FairSpec == Spec /\ WF_vars(Next)
+FairSpec == Spec /\ WF_vars(EarlyStop \/ Start \/ Poll \/ NextCall \/ LoopEnd \/ Terminal)
 
 -----------------------------------------------------------------------------
 All1 == \A j \in Layers(sc.stages) : \A v \in 0..(sc.n - 1) : visited[j][v] = 1
